@@ -584,6 +584,22 @@ func (s *sce) deliver(f *flight, n int) *delivery {
 	}
 	fr, resp := fclient.VerifyHTTPRequest(req, now, spec.ServerName(s.dNames[0]), isLocal, s.verifier())
 	d.fr, d.code = fr, resp.Code
+	if fr != nil && s.r.T.Chance(500) {
+		// D keeps the accepted request while it handles the next one, an
+		// unauthenticated request with another body of similar size: what the
+		// accepted request reports must not change under the holder's feet
+		// (the judge reads it afterwards)
+		body := bytes.Repeat([]byte("x"), len(f.body)+8)
+		copy(body, []byte(`{"decoy":"`))
+		copy(body[len(body)-2:], []byte(`"}`))
+		dq, err := http.NewRequest("PUT", "http://"+s.dNames[0]+"/_matrix/federation/v1/send/decoy", bytes.NewReader(body))
+		if err == nil {
+			dq.Header.Set("Content-Type", "application/json")
+			_, dresp := fclient.VerifyHTTPRequest(dq, now, spec.ServerName(s.dNames[0]), nil, s.verifier())
+			r.Probe("accepted_request_held_across_next_request")
+			r.Logf("t=%v D handles an unauthenticated decoy request next (code %d)", r.Now(), dresp.Code)
+		}
+	}
 	return d
 }
 
